@@ -812,16 +812,11 @@ where
 
         let mut wb = WriteBuf::new(&mut tx);
 
-        // Honor the `fabricFiltered` flag on the originating Read request.
-        // When set, fabric-sensitive events emitted on other fabrics are
-        // dropped before they reach the wire (Matter Core spec).
-        let fabric_filtered = req.fabric_filtered().unwrap_or(true);
-
         let mut resp = ReportDataResponder::new(
             &req,
             None,
             HandlerInvoker::new(exchange, self),
-            EventReader::new(0, u64::MAX, fabric_filtered),
+            EventReader::new(0, u64::MAX),
             &self.state.events,
         );
 
@@ -1516,11 +1511,6 @@ where
             ReportDataReq::SubscribeReport(&sub_req)
         };
 
-        // Honor the `fabricFiltered` flag on the originating Subscribe request.
-        // When set, fabric-sensitive events emitted on other fabrics are
-        // dropped before they reach the wire (Matter Core spec).
-        let fabric_filtered = req.fabric_filtered().unwrap_or(true);
-
         let mut resp = ReportDataResponder::new(
             &req,
             Some(rctx.subscription().ids().id),
@@ -1528,7 +1518,6 @@ where
             EventReader::new(
                 rctx.max_seen_event_number(),
                 rctx.next_max_seen_event_number(),
-                fabric_filtered,
             ),
             &self.state.events,
         );
